@@ -429,6 +429,10 @@ class Skel:
             rp = field_path(recv)
             m = e["method"]
             inner = self.ops(e["recv"])
+            if m in ("map_err", "or_else", "ok_or_else") and len(e["args"]) == 1 and strip(e["args"][0]).get("k") == "Closure":
+                # `r.map_err(|_| E)` is `match r { Err(_) => Err(E), Ok(v) => Ok(v) }` (arms in variant order: Err / None first)
+                c_ = self.norm(self.ops(strip(e["args"][0])["body"]))
+                return inner + ([("match", (c_, ()))] if c_ else [])
             for a in e["args"]:
                 if m in ITER_LOOPS and strip(a).get("k") == "Closure":
                     # `it.for_each(|x| B)` is `for x in it { B }`: the closure an iterator adaptor runs per element is a loop body
@@ -463,6 +467,8 @@ class Skel:
             inner = []
             for a in e["args"]:
                 inner += self.ops(a)
+            if nm == "Err" and len(e["args"]) == 1 and strip(e["f"]).get("k") == "Path" and strip(e["f"])["path"].get("defkind", "").startswith("Ctor"):
+                return inner + [("err",)]
             if nm == "branch" and len(e["args"]) == 1:
                 if strip(e["args"][0]).get("inlined_from"):
                     return inner          # `new_helper(..)?`: the helper's body stands here, its own returns are the exits
@@ -570,9 +576,11 @@ class Skel:
                 continue
             if o == ("cur", "head_skip_spaces") and out and out[-1] == o:
                 continue
+            if o == ("err",) and out and out[-1] == o:
+                continue            # `Err(self.parse_error(..))`: one error
             out.append(o)
         # markers only matter next to consumption: a list of nothing but ret/?/err markers is empty for our purposes
-        if all(o[0] in ("ret", "?", "err", "break", "continue") for o in out):
+        if all(o[0] in ("ret", "?", "break", "continue") for o in out):        # ("err",) is NOT dropped: `return err` vs `return ok` must differ
             return tuple()
         return tuple(out)
 
